@@ -206,7 +206,7 @@ def _single_indices(shape):
     return res
 
 
-_RANK = {0: "[jacobian of a scalar function]", 1: "", 2: "[jacobian of a matrix-valued function]"}
+_RANK = {0: "", 1: "", 2: "[jacobian of a matrix-valued function]"}
 
 
 def check_routes(P, f, prov, tag, caps, callsem="grid", pointfam=False, light=False, what=""):
@@ -320,7 +320,7 @@ def check_routes(P, f, prov, tag, caps, callsem="grid", pointfam=False, light=Fa
         if "grid_jacobian" in caps and prov.jac is not None:
             run("grid_jacobian", tag + ":grid_jacobian:singleton", "grid_jacobian(%s)" % name, lambda: f.grid_jacobian(axes),
                 prov.jac[ix], prov.jac_s, sq)
-        if "grid_hessian" in caps and prov.hess is not None and n * max(1, int(np.prod(osh))) < 200000:
+        if "grid_hessian" in caps and prov.hess is not None and n * max(1, int(np.prod(osh))) < 50000:
             run("grid_hessian", tag + ":grid_hessian:singleton", "grid_hessian(%s)" % name, lambda: f.grid_hessian(axes),
                 prov.hess[ix], prov.hess_s, sq)
 
@@ -517,7 +517,7 @@ def check_spline(case):
         check_routes(P, f, prov, tag, caps, "grid", pointfam=True, light=True)
         check_boundaries(P, f, prov, kind, caps, "grid", pointfam=True)
         return P
-    pts = [axis_points(br, p, thin=heavy) for br, p in zip(breaks, degs)]
+    pts = [axis_points(br, p, thin=(d == 3)) for br, p in zip(breaks, degs)]
     prov = spline_prov(sref, pts, hint)
     check_attrs(P, f, kind, d, osh, support=support)
     check_routes(P, f, prov, kind, caps, "grid", pointfam=True)
@@ -825,8 +825,10 @@ def spaces(tier):
 def func_cases(tier, seed):
     cs = []
     quick = tier == "quick"
+    n3 = -1
     for axes in spaces(tier):
         d = len(axes)
+        n3 += d == 3          # thorough: the 3D spaces come in groups of 4 per degree triple
         degs = tuple(ax[0] for ax in axes)
         base = {"part": "func", "axes": axes, "seed": seed}
         # all unit tensors in 3D are the expensive cases: quick = the degree triples with pairwise different or
@@ -847,7 +849,7 @@ def func_cases(tier, seed):
                     ctors = (("sep", "premult", "sep")[wi],)
                 if quick and osh in ([1], [3]) and w == "two":
                     continue
-                if osh == "unit" and d == 3 and (not unit3 or (quick and w != "graded")):
+                if osh == "unit" and d == 3 and (not unit3 or (w != "graded" and (quick or n3 % 4))):
                     continue
                 for c in ctors:
                     cs.append(dict(base, kind="nurbs", oshape=osh, weights=w, ctor=c))
